@@ -38,7 +38,7 @@ import (
 
 func orcGen(seed int64, tier string, emit func(run.Case)) {
 	r := gen.New(seed)
-	n := tierN(tier, 600, 30000)
+	n := tierN(tier, 500, 25000)
 	if v, err := strconv.Atoi(os.Getenv("ORC_N")); err == nil && v > 0 {
 		n = v // triage aid only: a prefix of the same case list
 	}
@@ -95,6 +95,7 @@ type orcSnap struct {
 	edgeByTag map[string]int
 	byPath    map[string]int
 	Pi        string // π of this board alone (no nested boards)
+	PiSorted  string // the same as a multiset (objects and connections sorted by ID)
 }
 
 var orcTagRe = regexp.MustCompile(`^(L[0-9]+)(\|.*)?$`)
@@ -125,6 +126,7 @@ func orcSnapOf(g *d2graph.Graph) *orcSnap {
 	s := &orcSnap{objByTag: map[string]int{}, edgeByTag: map[string]int{}, byPath: map[string]int{}}
 	pb := orcBoardOnly(g)
 	s.Pi = pb.String()
+	s.PiSorted = pb.Sorted().String()
 	idx := map[*d2graph.Object]int{}
 	for i, o := range g.Objects {
 		idx[o] = i
@@ -482,6 +484,18 @@ func (st *orcState) boardIndex(key string) int {
 func (st *orcState) hollow(i int) bool {
 	b := st.Boards[i]
 	return b.Base >= 0 && len(b.G.Objects) == 0 && len(st.Boards[b.Base].G.Objects) > 0
+}
+
+// orcWentHollow: the edit emptied a scenario/step, whose map the formatter then prints as a
+// bare key (`s1: {}` -> `s1`); such a board no longer inherits anything (see hollow). The
+// board-level consequence belongs to the formatter/compiler pair (C04/C15), so the
+// element-level monitors do not judge that edit.
+func orcWentHollow(s *orcStep) bool {
+	if s.Post == nil || s.Pre.hollow(s.Call.BoardIdx) {
+		return false
+	}
+	i := s.Post.boardIndex(s.Pre.Boards[s.Call.BoardIdx].Key)
+	return i >= 0 && s.Post.hollow(i)
 }
 
 // inherits: does board x inherit (transitively) from board b?
@@ -897,7 +911,7 @@ func orcResolve(op gen.EditOp, st *orcState) (orcCall, bool) {
 			c.Variant = "into-container"
 			if inSub(t) {
 				// destination inside the moved subtree: kept rare (see "into-itself")
-				if sub%8 == 0 {
+				if sub == 0 && op.Sel[2]%4 == 0 {
 					c.Variant = "into-own-subtree"
 				} else {
 					for k := 1; k < len(objs) && inSub(t); k++ {
@@ -917,13 +931,23 @@ func orcResolve(op gen.EditOp, st *orcState) (orcCall, bool) {
 		case 7:
 			// moving an object into its own subtree: rare on purpose — on the pinned tree it
 			// either silently drops the object or never returns (see known findings)
-			if sub%4 == 0 {
+			if sub == 0 && op.Sel[2]%2 == 0 {
 				c.NewKey, c.Variant = o.AbsID()+"."+o.ID, "into-itself"
 			} else {
 				c.NewKey, c.Variant = parentPrefix+name+"."+o.ID, "same-scope-missing-parent"
 			}
 		case 8:
 			t := obj(op.Sel[1])
+			for k := 1; k < len(objs) && t != o && func() bool {
+				for p := t.Parent; p != nil; p = p.Parent {
+					if p == o {
+						return true
+					}
+				}
+				return false
+			}(); k++ {
+				t = obj(op.Sel[1] + k) // not onto an own descendant (see "into-itself")
+			}
 			c.NewKey, c.Variant = t.AbsID(), "onto-existing"
 		default:
 			c.NewKey, c.Variant = name+"."+o.ID, "missing-parent"
@@ -1282,6 +1306,7 @@ func orcRun(in gen.EditCase, res *run.Result, h orcHooks) {
 		}
 		ap := orcApply(call, st)
 		res.Inc("ops_" + call.Kind)
+		res.Inc("variant_" + call.Kind + "_" + call.Variant)
 		if len(call.Board) > 0 {
 			res.Inc("ops_on_nested_board")
 		}
